@@ -43,7 +43,7 @@ CLAIMS = {
              'x kept fraction, evidence term = sum_j L_j V_b/N, Kish size per shell and overall, '
              'per-sample weights that sum to the evidence term and are normalised by their own '
              'sum.  Floating-point evaluation of the formulas and eta are not decided.',
-        ref='DESIGN.md section 4 C02 and 10.9, rules L1 L1d T3 T8 Q3 A2 A6 L5 U1 A8 P4 E', note=TRUST),
+        ref='DESIGN.md section 4 C02 and 10.9, rules L1 L1d T3 T8 Q3 A2 A6 L5 U1 A8 P4 E I1 N3', note=TRUST),
     'C03': dict(
         technique='lockstep path analysis (same mask / index / source on parallel arrays), '
                   'ordered-map and batch-axis lints on the evaluation path, copy-provenance rule',
@@ -74,7 +74,7 @@ CLAIMS = {
              'sweeps every attribute of the fitted networks; a value cached on demand is '
              'invalidated by every write to what it was computed from (serial and pool path).  '
              'Bit-identity itself is not decided.',
-        ref='DESIGN.md section 4 C05 and 10, rules P0 P1 P2 P4 P5 P6 P8 K2 F3 F4', note=TRUST +
+        ref='DESIGN.md section 4 C05 and 10, rules P0 P1 P2 P4 P5 P6 P8 P9 P11 P12 K2 F3 F4', note=TRUST +
         ' h5py round-trips values exactly; sklearn training is deterministic given its seed.'),
     'C06': dict(
         technique='typestate analysis on per-function CFGs (atomic-replace protocol), path '
@@ -133,7 +133,7 @@ CLAIMS.update({
              'the proposal region times (n_sample - n_reject)/n_sample and the ellipsoid volume is '
              'log|det M| + (n/2) log pi - lgamma(n/2+1) for the matrix M that contains() inverts.  Uniformity and volume calibration as '
              'distributional facts are NOT decided by static analysis.',
-        ref='DESIGN.md section 4 C08 and 10.9, rules A3 T8 Q1 Q2 P4 M1 K2 V2', note=TRUST),
+        ref='DESIGN.md section 4 C08 and 10.9, rules A3 T8 Q1 Q2 P4 M1 K2 V2 I2 N3', note=TRUST),
     'C09': dict(
         technique='writer/reader/updater table extraction and comparison; definite-assignment '
                   'analysis of constructors against the observation interface read set',
@@ -144,9 +144,14 @@ CLAIMS.update({
              'are restored under the predicate the constructor / writer uses; mutable state is '
              'restored from the file, not re-derived; list members come back in index order; the '
              'classes a reader can rebuild cover those the creating code can store; update() '
-             'rewrites, on every path, what sample() mutates; the network attribute sweep skips '
-             'only what is stored explicitly.',
-        ref='DESIGN.md section 4 C09 and 10, rules P1-P5 P7 P8', note=TRUST +
+             'rewrites, on every path, what sample() mutates; the network attribute sweep is '
+             'present and skips only what is stored explicitly; an optional member never gets a '
+             'value without the file being asked; a constructor-only attribute that read() '
+             'recomputes uses the constructor\'s expression; indexed members are read for '
+             'exactly the indices 0..N-1 (range bounds evaluated, probed while-loops start at 0, '
+             'advance by one and continue while the key exists); a class chosen by comparing a '
+             'stored tag with a string is the class of that name.',
+        ref='DESIGN.md section 4 C09 and 10.9, rules P1-P5 P7-P12', note=TRUST +
         ' Exact array round-trip through HDF5 and the sklearn attribute sweep are trusted.'),
     'C10': dict(
         technique='who-may-call / who-may-write tables, CFG loop contract, def-use accounting',
@@ -159,7 +164,7 @@ CLAIMS.update({
              'and is the returned value; every evaluated point comes from a unit-cube restricted '
              'bound through row selections and a shift that is closed on [0,1); across resumes the '
              'budget is compared with a counter that every checkpoint update rewrites.',
-        ref='DESIGN.md section 4 C10 and 10.9, rules F6 N1 T5 T8 M1 M3 M6 P4', note=TRUST),
+        ref='DESIGN.md section 4 C10 and 10.9, rules F6 N1 T5 T8 M1 M3 M6 P4 I1', note=TRUST),
     'C11': dict(
         technique='effect (write/draw) summaries closed over the call graph; control-dependence '
                   'analysis of flag tests; rng provenance; nondeterminism lints with fixtures',
@@ -202,7 +207,7 @@ CLAIMS.update({
              'ellipsoids or points, every change is followed by reset(), and no function of the '
              'package writes into an array it was handed (so the recorded construction points '
              'stay what they were).',
-        ref='DESIGN.md section 4 C13 and 10.9, rules L1 L1d L6 L0 T1 T9 S2 S3 F9', note=TRUST),
+        ref='DESIGN.md section 4 C13 and 10.9, rules L1 L1d L6 L0 T1 T9 S2 S3 F9 N3', note=TRUST),
     'C14': dict(
         technique='lockstep rule on local view arrays; purity / parameter-guarded draw; '
                   'path-wise symbolic evaluation of the repeat counts',
